@@ -112,6 +112,13 @@ func newC03World(rt *rapid.T) *c03World {
 		}
 		// rich escrows (well above 2^64): a claim is then decided by the proof, never by missing funds
 		e.Fund(ophosttypes.BridgeAddress(b), sdk.NewCoin("uinit", c03Rich), sdk.NewCoin("uusdc", c03Rich))
+		// both tokens have been deposited before: the bridge knows their L2 names
+		e.Fund(w.users[0].Addr, coinOf("uinit", 10), coinOf("uusdc", 10))
+		for _, d := range []string{"uinit", "uusdc"} {
+			if r := e.Deliver(ophosttypes.NewMsgInitiateTokenDeposit(w.users[0].Str, b, "l2-recipient", coinOf(d, 1), nil)); !r.OK() {
+				panic(r.Err)
+			}
+		}
 	}
 	sizeGen := rapid.OneOf(rapid.IntRange(1, 8), rapid.IntRange(1, 40))
 	seq := map[uint64]uint64{1: 1, 2: 1}
@@ -189,7 +196,7 @@ var c03Rich, _ = math.NewIntFromString("1180591620717411303424") // 2^70
 var c03Kinds = []string{"none", "flip-storage", "flip-blockhash", "flip-proof", "version", "seq", "amount", "amount+2^64", "bridge", "index", "swap-from-to",
 	"other-storage", "other-blockhash", "drop-last", "drop-first", "dup-item", "swap-items", "extend", "empty-proof", "cut-to-inner", "other-pos-proof",
 	"from-case", "from-nul", "move-byte", "denom", "to-other-user", "dead-output", "inner-as-root", "to-uppercase",
-	"lengthen-blockhash", "lengthen-storage", "shorten-blockhash", "lengthen-version", "extend-many"}
+	"lengthen-blockhash", "lengthen-storage", "shorten-blockhash", "lengthen-version", "extend-many", "denom-l2-twin"}
 
 // perturb applies one perturbation kind in place; returns false if it does not apply.
 func (w *c03World) perturb(rt *rapid.T, kind string, m *ophosttypes.MsgFinalizeTokenWithdrawal, o *mOutput, pos int) bool {
@@ -323,6 +330,9 @@ func (w *c03World) perturb(rt *rapid.T, kind string, m *ophosttypes.MsgFinalizeT
 		} else {
 			m.Amount.Denom = "uinit"
 		}
+	case "denom-l2-twin":
+		// the name the same token has on L2 (the bridge has a registered token pair for it)
+		m.Amount.Denom = ref.L2Denom(m.BridgeId, m.Amount.Denom)
 	case "to-uppercase":
 		if strings.ToUpper(m.To) == m.To {
 			return false
